@@ -48,7 +48,7 @@ class PlayerPositionAndLookPacket(Packet, BitFieldEnum):
     # NOTE: modifying the object retrieved from this property will not change
     # the packet; it can only be changed by attribute or property assignment.
     position_and_look = multi_attribute_alias(
-        PositionAndLook, 'x', 'y', 'z', 'yaw', 'pitch')
+        PositionAndLook, x='x', y='y', z='z', yaw='yaw', pitch='pitch')
 
     field_enum = classmethod(
         lambda cls, field, context: cls if field == 'flags' else None)
